@@ -56,4 +56,7 @@ NOT_APPLICABLE = {}
 # bridge modules (theorems Gen = Model over the regenerated QhttpGen/*.lean) each property depends on
 BRIDGES = {
     "C16": ["QhttpBridge.Range"],
+    "C18": ["QhttpBridge.Ack"],
+    "C01": ["QhttpBridge.Tables"],
+    "C03": ["QhttpBridge.Tables"],
 }
